@@ -124,6 +124,12 @@ func c13Apply(envs []*env.Env, op c12Op) (out string) {
 			return errOut(err)
 		}
 		return sxList("ty", sxInt(typeTok(t)))
+	case "LazyExt": // an external lookup that caches what it resolves in the scope it serves
+		e.SetExternalLookup(&c13ReExt{e: e, define: true})
+		return "(none)"
+	case "PeekExt": // an external lookup that looks at the scope it serves
+		e.SetExternalLookup(&c13ReExt{e: e})
+		return "(none)"
 	case "Snap":
 		c := e.Copy()
 		d := c13Dump(c, 0)
@@ -231,6 +237,34 @@ func c13RunOnce(initOps []c12Op, threads [][]c12Op, prefix []int) c13Result {
 type c13Program struct {
 	Init    []c12Op   `json:"init"`
 	Threads [][]c12Op `json:"threads"`
+	// Reentrant: the scope has an external lookup whose callback calls back into the scope; such programs are
+	// outside the sequential model and are explored for deadlock and panic only
+	Reentrant bool `json:"reentrant,omitempty"`
+}
+
+// c13ReExt is a host-side external lookup that uses the scope it is installed on - what a lazily
+// resolving host does.  It must be callable without deadlock whatever else goes on in the scope.
+type c13ReExt struct {
+	e      *env.Env
+	define bool
+}
+
+func (x *c13ReExt) Get(symbol string) (reflect.Value, error) {
+	if x.define {
+		x.e.DefineValue("lazy_"+symbol, tokValue(77, false))
+	} else {
+		x.e.GetValueSymbols()
+	}
+	return tokValue(77, false), nil
+}
+
+func (x *c13ReExt) Type(symbol string) (reflect.Type, error) {
+	if x.define {
+		x.e.DefineReflectType("lazy_"+symbol, tokTypeOf(3))
+	} else {
+		x.e.GetTypeSymbols()
+	}
+	return tokTypeOf(3), nil
 }
 
 func c13GenOp(rnd *Rand, next *int) c12Op {
@@ -321,6 +355,17 @@ func c13Directed() []c13Program {
 			{{K: "Set", E: 1, S: "p", V: tv(11)}, {K: "Get", E: 1, S: "p"}},
 			{{K: "Define", E: 1, S: "p", V: tv(12)}, {K: "Delete", E: 1, S: "p"}},
 			{{K: "Get", E: 1, S: "p"}, {K: "Snap", E: 1}}}},
+		// external lookups that call back into the scope they serve: no schedule may deadlock
+		{Reentrant: true, Init: with(c12Op{K: "LazyExt", E: 1}), Threads: [][]c12Op{
+			{{K: "Get", E: 1, S: "zz"}}, {{K: "Define", E: 1, S: "b", V: tv(12)}}}},
+		{Reentrant: true, Init: with(c12Op{K: "Define", E: 1, S: "a", V: tv(3)}, c12Op{K: "PeekExt", E: 1}), Threads: [][]c12Op{
+			{{K: "Get", E: 1, S: "zz"}, {K: "Get", E: 1, S: "a"}}, {{K: "Set", E: 1, S: "a", V: tv(12)}}, {{K: "Delete", E: 1, S: "b"}}}},
+		{Reentrant: true, Init: with(c12Op{K: "LazyExt", E: 1}), Threads: [][]c12Op{
+			{{K: "Type", E: 1, S: "Tzz"}}, {{K: "DefineType", E: 1, S: "Tb", T: 2}, {K: "Snap", E: 1}}}},
+		{Reentrant: true, Init: with(c12Op{K: "PeekExt", E: 1}), Threads: [][]c12Op{
+			{{K: "Type", E: 1, S: "Tzz"}, {K: "Get", E: 1, S: "zz"}}, {{K: "Define", E: 1, S: "b", V: tv(12)}}, {{K: "DefineType", E: 1, S: "Tb", T: 2}}}},
+		{Reentrant: true, Init: with(c12Op{K: "PeekExt", E: 0}), Threads: [][]c12Op{ // the lookup sits on the parent: reached through the child
+			{{K: "Get", E: 1, S: "zz"}}, {{K: "Define", E: 0, S: "q", V: tv(12)}}, {{K: "Define", E: 1, S: "b", V: tv(13)}}}},
 	}
 }
 
@@ -350,6 +395,7 @@ func c13Main(seed uint64, n int, outDir, repo string) error {
 		Outcomes  int        `json:"outcomes"`
 		Deadlocks int        `json:"deadlocks"`
 		DeadSched []int      `json:"dead_sched,omitempty"`
+		Panics    int        `json:"panics"`
 	}
 	var metas []progMeta
 	var outcomeOf []map[string]interface{}
@@ -359,6 +405,10 @@ func c13Main(seed uint64, n int, outDir, repo string) error {
 		_ = initSx
 		var inits []string
 		for _, op := range p.Init {
+			if op.K == "LazyExt" || op.K == "PeekExt" {
+				inits = append(inits, "("+op.K+")")
+				continue
+			}
 			inits = append(inits, c12SxOp(op))
 		}
 		for _, t := range p.Threads {
@@ -389,7 +439,16 @@ func c13Main(seed uint64, n int, outDir, repo string) error {
 					ts = append(ts, sxList(evs...))
 				}
 				line := sxList(sxList(inits...), sxList(ts...), sxList(r.Final...))
-				if !seen[line] {
+				if p.Reentrant {
+					seen[line] = true // explored for deadlock and panic only
+					for _, outs := range r.Outs {
+						for _, o := range outs {
+							if o == "(panic)" {
+								pm.Panics++
+							}
+						}
+					}
+				} else if !seen[line] {
 					seen[line] = true
 					fmt.Fprintln(cases, "c13 "+line)
 					outcomeOf = append(outcomeOf, map[string]interface{}{"program": pi, "sched": r.Sched, "outs": r.Outs, "final": r.Final})
